@@ -9,7 +9,7 @@ CONSTANTS
   Cbs <- NoCb
   Budget = 3
   MaxAt = 2
-  ExpmDopModes <- Pinned
+  ExpmDopModes <- Repaired
   Solve2Modes <- Solve2OK
   Progbars <- PbOff
   Progbar0Modes <- PbOK
